@@ -1,7 +1,7 @@
 (* Entry point of the extracted runner: [run fn arg].  The Python side finds function
    numbers by parsing the "(* FN name *)" comments below. *)
 From Coq Require Import ZArith List.
-From PyCraft Require Import Base.Res Base.Sx Model.VarInt Model.Versions Model.Position Model.SignedHex Model.Sha1 Model.Tables Model.FieldTypes Model.Nbt.
+From PyCraft Require Import Base.Res Base.Sx Model.VarInt Model.Versions Model.Position Model.SignedHex Model.Sha1 Model.Tables Model.FieldTypes Model.Nbt Model.Prog Model.CustomPackets.
 Import ListNotations.
 Open Scope Z_scope.
 
@@ -128,5 +128,11 @@ Definition run (fn : Z) (a : sx) : sx :=
       of_res of_vsrest (decode_fields (sx_cctx (sx_nth a 0)) nbt_split (sx_defn (sx_nth a 1)) (sx_zs (sx_nth a 2)))
   | 44 => (* FN nbt_split : (bytes) *)
       of_opt (fun p => L [of_zs (fst p); of_zs (snd p)]) (nbt_split (sx_zs (sx_nth a 0)))
+  | 45 => (* FN enc_prog : (cctx which flags values) *)
+      of_res of_zs (enc_prog (sx_cctx (sx_nth a 0)) (custom_prog (sx_z (sx_nth a 1)) (map sx_bool (sx_list (sx_nth a 2))))
+                             (map (sx_value 12) (sx_list (sx_nth a 3))))
+  | 46 => (* FN dec_prog : (cctx which flags bytes) *)
+      of_res of_vsrest (dec_prog (sx_cctx (sx_nth a 0)) nbt_split (custom_prog (sx_z (sx_nth a 1)) (map sx_bool (sx_list (sx_nth a 2))))
+                                 (sx_zs (sx_nth a 3)))
   | _ => L [I 99]
   end.
